@@ -61,3 +61,34 @@ func Harness_C09_startVsWriter() {
 	verifAssert(found, "a mutation that commits while the feed is starting is delivered by backfill or live")
 	verifReach("done")
 }
+
+// C09 through the public entry point: StartDCPFeed with Backfill = a CAS delivers exactly the
+// documents at or above it (then goes live); Backfill = 0 delivers everything.
+func Harness_C09_startFromCas() {
+	le := lifeBegin(true)
+	ctx := context.Background()
+	verifAssert(le.c1.SetRaw("a", 0, nil, []byte("va")) == nil, "write succeeds")
+	verifAssert(le.c1.SetRaw("b", 0, nil, []byte("vb")) == nil, "write succeeds")
+	da := verifGetDoc(le.h1.sqliteDB, 1, "a")
+	db := verifGetDoc(le.h1.sqliteDB, 1, "b")
+	from := uint64(db.Cas)
+	if verifBool("fromZero") {
+		from = 0
+	}
+	term := make(chan bool)
+	verifAssert(le.c2.StartDCPFeed(ctx, sgbucket.FeedArguments{ID: "f", Backfill: from, Terminator: term}, le.callback, nil) == nil, "feed starts")
+	verifJoin()
+	sawA, sawB := false, false
+	for _, s := range le.seen {
+		sawA = sawA || (s.key == "a" && s.cas == uint64(da.Cas))
+		sawB = sawB || (s.key == "b" && s.cas == uint64(db.Cas))
+	}
+	verifAssert(sawB, "backfill delivers the document at the start CAS")
+	verifAssert(sawA == (from == 0), "backfill delivers a document below the start CAS only when asked to start from 0")
+	verifAssert(le.c1.SetRaw("c", 0, nil, []byte("vc")) == nil, "write succeeds")
+	verifJoin()
+	verifAssert(le.sawKey("c"), "after the backfill the feed is live")
+	close(term)
+	verifJoin()
+	verifReach("done")
+}
